@@ -62,6 +62,9 @@ type Blk struct {
 	Ordered bool       `json:"ordered,omitempty"`
 	Text    string     `json:"text,omitempty"`
 	Grid    [][]string `json:"grid,omitempty"` // table: rectangular, >= 2 rows, >= 1 column
+	// Wrap (HTML, EPUB): the table stands alone inside a wrapper - 1: <div class="table-responsive">, 2: the same
+	// with an inline caption in front (<span>, empty), 3: <figure>, 4: <section><div>
+	Wrap int `json:"wrap,omitempty"`
 }
 
 type Opts struct {
@@ -133,20 +136,55 @@ func wpPara(text string) wpmodel.Para {
 
 func wpDoc(c Case) wpmodel.Doc {
 	d := wpmodel.Doc{Meta: &wpmodel.Meta{Title: "Title of the document", Author: "An Author"}}
-	// two list definitions: all-bullet and all-decimal (a list's kind is a property of its definition)
-	d.Lists = []wpmodel.ListDef{{Kinds: []string{wpmodel.LBullet, wpmodel.LBullet, wpmodel.LBullet}}, {Kinds: []string{wpmodel.LDecimal, wpmodel.LDecimal, wpmodel.LDecimal}}}
-	for _, b := range c.Blocks {
+	// eight list definitions: bullet or decimal at each of the three levels (a level's kind is a property of the
+	// definition); definition k has a numbered level l when bit l of k is set
+	for k := 0; k < 8; k++ {
+		kinds := make([]string, 3)
+		for l := range kinds {
+			kinds[l] = wpmodel.LBullet
+			if k>>uint(l)&1 == 1 {
+				kinds[l] = wpmodel.LDecimal
+			}
+		}
+		d.Lists = append(d.Lists, wpmodel.ListDef{Kinds: kinds})
+	}
+	// every run of items is one list: its definition follows from the kind each level shows first (a level that
+	// never shows takes the kind of the level above)
+	defOf := make([]int, len(c.Blocks))
+	for i := 0; i < len(c.Blocks); {
+		if c.Blocks[i].Kind != "item" {
+			i++
+			continue
+		}
+		j := i
+		var known [3]bool
+		var ordered [3]bool
+		for ; j < len(c.Blocks) && c.Blocks[j].Kind == "item"; j++ {
+			if l := c.Blocks[j].Level; !known[l] {
+				known[l], ordered[l] = true, c.Blocks[j].Ordered
+			}
+		}
+		def := 0
+		for l := 0; l < 3; l++ {
+			if !known[l] && l > 0 {
+				ordered[l] = ordered[l-1]
+			}
+			if ordered[l] {
+				def |= 1 << uint(l)
+			}
+		}
+		for ; i < j; i++ {
+			defOf[i] = def
+		}
+	}
+	for bi, b := range c.Blocks {
 		switch b.Kind {
 		case "heading":
 			d.Blocks = append(d.Blocks, wpmodel.Block{Kind: wpmodel.BHeading, Level: b.Level, How: wpmodel.HowBuiltin, Runs: wpPara(b.Text)})
 		case "para":
 			d.Blocks = append(d.Blocks, wpmodel.Block{Kind: wpmodel.BPara, Runs: wpPara(b.Text)})
 		case "item":
-			li := 0
-			if b.Ordered {
-				li = 1
-			}
-			d.Blocks = append(d.Blocks, wpmodel.Block{Kind: wpmodel.BItem, List: li, Depth: b.Level, Runs: wpPara(b.Text)})
+			d.Blocks = append(d.Blocks, wpmodel.Block{Kind: wpmodel.BItem, List: defOf[bi], Depth: b.Level, Runs: wpPara(b.Text)})
 		case "table":
 			t := &wpmodel.Table{Rows: len(b.Grid), Cols: len(b.Grid[0])}
 			for r, row := range b.Grid {
@@ -218,6 +256,7 @@ func htmlBody(blocks []Blk) string {
 			}
 			b.WriteString(esc(blk.Text))
 		case "table":
+			b.WriteString([]string{"", `<div class="table-responsive">`, `<div class="table-responsive"><span class="cap"></span>`, "<figure>", "<section><div>"}[blk.Wrap])
 			b.WriteString("<table>\n")
 			for r, row := range blk.Grid {
 				b.WriteString("<tr>")
@@ -231,6 +270,7 @@ func htmlBody(blocks []Blk) string {
 				b.WriteString("</tr>\n")
 			}
 			b.WriteString("</table>\n")
+			b.WriteString([]string{"", "</div>", "</div>", "</figure>", "</div></section>"}[blk.Wrap])
 		}
 	}
 	closeTo(0)
@@ -632,7 +672,8 @@ func genCase(t *rapid.T) Case {
 	nb := rapid.IntRange(1, 8).Draw(t, "blocks")
 	depth := -1 // depth of the previous list item (-1: not in a list)
 	ordered := false
-	var kindAt [3]bool // kind of the open list at each depth
+	var kindAt [3]bool    // kind of the open list at each depth
+	var levelSeen [3]bool // word-processor lists: levels of the running list that have shown an item
 	for i := 0; i < nb; i++ {
 		kind := rapid.SampledFrom([]string{"heading", "para", "item", "item", "table", "table"}).Draw(t, "kind")
 		if c.Target == "modeltable" || c.Target == "xlsx" {
@@ -667,15 +708,24 @@ func genCase(t *rapid.T) Case {
 				d = rapid.IntRange(0, minInt(depth+1, 2)).Draw(t, "depth") // a list deepens one level at a time
 				// one definition per list in the word-processor formats: keep the kind within a run of items.
 				// HTML nests <ol> in <ul> items and vice versa: a nested list may have the other kind
-				if (c.Target == "html" || c.Target == "epub") && d > depth && rapid.Bool().Draw(t, "otherKind") {
+				wp := c.Target == "docx" || c.Target == "odt"
+				switch {
+				case (c.Target == "html" || c.Target == "epub") && d > depth && rapid.Bool().Draw(t, "otherKind"):
 					kindAt[d] = !kindAt[depth]
-				} else if d > depth {
+				case wp && d > depth && !levelSeen[d] && rapid.Bool().Draw(t, "otherKindLevel"):
+					// word-processor lists: the kind belongs to the level of the list definition; it is chosen when
+					// the level shows first and stays
+					kindAt[d] = !kindAt[depth]
+				case wp && d > depth && levelSeen[d]:
+				case d > depth:
 					kindAt[d] = kindAt[depth]
 				}
+				levelSeen[d] = true
 				ordered = kindAt[d]
 			} else {
 				ordered = rapid.Bool().Draw(t, "ordered")
 				kindAt = [3]bool{ordered, ordered, ordered}
+				levelSeen = [3]bool{true, false, false}
 			}
 			c.Blocks = append(c.Blocks, Blk{Kind: "item", Level: d, Ordered: ordered, Text: tok() + " " + tok()})
 			depth = d
@@ -711,7 +761,11 @@ func genCase(t *rapid.T) Case {
 					}
 				}
 			}
-			c.Blocks = append(c.Blocks, Blk{Kind: "table", Grid: g})
+			blk := Blk{Kind: "table", Grid: g}
+			if (c.Target == "html" || c.Target == "epub") && rapid.Bool().Draw(t, "wrappedTable") {
+				blk.Wrap = rapid.IntRange(1, 4).Draw(t, "wrapper")
+			}
+			c.Blocks = append(c.Blocks, blk)
 			depth = -1
 		}
 	}
